@@ -221,7 +221,7 @@ pub fn run(tier: Tier, seed: u64) -> Report {
         let r = run_pbt(
             &name,
             seed,
-            tier.pick(650, 5_000),
+            tier.pick(4_000, 40_000),
             || src_strategy(),
             |src, st| check_exhaustive(src, res, st),
             super::c01::src_json,
@@ -234,7 +234,7 @@ pub fn run(tier: Tier, seed: u64) -> Report {
     let r = run_pbt(
         "neighbourhood",
         seed,
-        tier.pick(300, 10_000),
+        tier.pick(2_000, 40_000),
         || (src_strategy(), (max_ex + 1)..=29).boxed(),
         |(src, res), st| check_neighbourhood(src, *res, st),
         |(src, res)| json!({"src": super::c01::src_json(src), "res": res}),
